@@ -480,5 +480,5 @@ func firstDiff(a, b []byte) int {
 }
 
 func TestProp(t *testing.T) {
-	vt.Run(t, prop, vt.Sub[Case]{Prop: prop, Name: "history", Gen: genCase, Run: run, Classify: classify}.WithBudget(6000, 120000))
+	vt.Run(t, prop, vt.Sub[Case]{Prop: prop, Name: "history", Gen: genCase, Run: run, Classify: classify}.WithBudget(15000, 120000))
 }
